@@ -8,19 +8,86 @@ TRUSTED_BASE = [
     "Coq 8.16.1 kernel (coqc; coqchk in the thorough tier)",
     "Print Assumptions of every theorem in coq/Properties/C15.v: closed under the global context",
     "hand-written model coq/Model/Socks5.v of socks5_client.rs (writers, connect_inner negotiation, read_reply, UDP header) and of socks5_forwarder::make_auth; Lib/Base64.v, Lib/Utf8.v",
-    "independent grammar coq/Spec/Rfc1928.v (RFC 1928/1929 + documented extended authentication), also run as oracle on the bytes the real client wrote",
-    "translator tools/gen_tables.py (SOCKS constants, presence of the user/password length check)",
+    "independent grammar coq/Spec/Rfc1928.v (RFC 1928/1929 + documented extended authentication, field lengths as the RFC / lib/README.md give them: UNAME, PASSWD 1..255; DOMAIN, USER_AGENT, PROXY_AUTH (0..MAX]), also run as oracle on the bytes the real client wrote; the same grammar once more in Python (wire_problem), which names the field",
+    "translator tools/gen_tables.py (SOCKS constants, presence of the user/password length checks (too long, empty) and of the empty-string check of the extended values; make_extended_auth leaves an empty User-Agent out; destination() keeps IP literals addresses)",
     "extraction + driver.ml, cross-checked against vm_compute; harness doors verif::socks (in-memory duplex, loopback UDP)",
 ]
 ASSUMPTIONS = [
     "tokio read_exact/read_u8 deliver the server's bytes regardless of segmentation (exercised with 1-/2-cut and byte-wise delivery)",
     "UDP ASSOCIATE's control dialogue is the CONNECT dialogue with another command code and is not driven separately",
-    "zero-length user names/passwords are written as ULEN/PLEN = 0 (left to the server to refuse)",
 ]
 RULE = ("credentials of 0..600 bytes (ASCII and multi-byte UTF-8), extended-auth value lists, IPv4/IPv6/domain (0..300 bytes) "
         "destinations x server behaviours: every method selection (0, 2, 0x80, 0xff, unknown, wrong version), every auth status, every "
         "reply code 0..9 x bound address type (v4, v6, domain, unknown), truncation of the server bytes at every length, whole / 1-cut / "
-        "byte-wise delivery; non-trivial = the dialogue gets past the method selection; distinct = distinct case line")
+        "byte-wise delivery; empty user name / password / extended string values; end to end: CONNECT and plain GET (absolute form with and "
+        "without a port) to names, IPv4, IPv6 and IPv4-mapped literals, Basic credentials with an empty half, a User-Agent field with an empty value; "
+        "non-trivial = the dialogue gets past the method selection; distinct = distinct case line")
+
+
+def wire_problem(ak, b):
+    """The bytes a SOCKS5 client wrote, read as: one method selection (RFC 1928 section 3), then at most one authentication message
+    (ak 1: RFC 1929 section 2, "UNAME ... 1 to 255", "PASSWD ... 1 to 255"; ak 2: lib/README.md, VER then TYPE LENGTH(2) VALUE ... TERM,
+    DOMAIN / USER_AGENT / PROXY_AUTH of length (0..MAX], CLIENT_ADDRESS 4 | 16, SNI_AUTH 0), then at most one request (RFC 1928 section 4).
+    Returns None, or what is malformed. Direct reading of the documents; does not go through the Coq development."""
+    if len(b) < 2 or b[0] != 5:
+        return "no method selection with VER 5"
+    if b[1] < 1 or len(b) < 2 + b[1]:
+        return "method selection with NMETHODS %d and %d methods" % (b[1], len(b) - 2)
+    i = 2 + b[1]
+    if i < len(b) and b[i] == 1:
+        if ak == 1:
+            if len(b) < i + 2:
+                return "user/password message cut after VER"
+            ulen = b[i + 1]
+            if ulen < 1:
+                return "user/password message with ULEN 0 (RFC 1929: UNAME is 1 to 255 octets)"
+            j = i + 2 + ulen
+            if len(b) < j + 1:
+                return "user/password message shorter than its ULEN"
+            plen = b[j]
+            if plen < 1:
+                return "user/password message with PLEN 0 (RFC 1929: PASSWD is 1 to 255 octets)"
+            if len(b) < j + 1 + plen:
+                return "user/password message shorter than its PLEN"
+            i = j + 1 + plen
+        elif ak == 2:
+            i += 1
+            names = {1: "DOMAIN", 3: "USER_AGENT", 4: "PROXY_AUTH"}
+            while True:
+                if len(b) < i + 3:
+                    return "extended authentication message without TERM"
+                t, ln = b[i], b[i + 1] * 256 + b[i + 2]
+                i += 3
+                if t == 0:
+                    if ln != 0:
+                        return "TERM with length %d" % ln
+                    break
+                if t in names:
+                    if ln < 1:
+                        return "extended authentication value %s with length 0 (lib/README.md: length (0..MAX])" % names[t]
+                elif t == 2:
+                    if ln not in (4, 16):
+                        return "CLIENT_ADDRESS of length %d" % ln
+                elif t == 5:
+                    if ln != 0:
+                        return "SNI_AUTH of length %d" % ln
+                else:
+                    return "extended authentication value of unknown type %d" % t
+                if len(b) < i + ln:
+                    return "extended authentication value shorter than its LENGTH"
+                i += ln
+        else:
+            return "an authentication message although no credentials are available"
+    if i == len(b):
+        return None
+    if len(b) < i + 5 or b[i] != 5 or b[i + 2] != 0:
+        return "request without VER 5 / RSV 0"
+    need = {1: 4, 4: 16, 3: 1 + b[i + 4]}.get(b[i + 3])
+    if need is None:
+        return "request with address type %d" % b[i + 3]
+    if len(b) != i + 4 + need + 2:
+        return "request of %d bytes, its address type %d asks for %d" % (len(b) - i, b[i + 3], 4 + need + 2)
+    return None
 
 
 def server_script(rng, method, status, code, atyp):
@@ -88,6 +155,17 @@ def gen_cases(rng, ctx):
     # corpus: 256-byte user name (repaired defect)
     mk(1, [0x75] * 256, [0x70], 3, list(b"example.org"), 443, [[5, 2, 1, 0, 5, 0, 0, 1, 1, 2, 3, 4, 0, 80]], "corpus:long-user")
     mk(1, [0x75], [0x70] * 300, 4, [1, 2, 3, 4], 443, [[5, 2, 1, 0, 5, 0, 0, 1, 1, 2, 3, 4, 0, 80]], "corpus:long-password")
+    # zero-length fields: RFC 1929 asks for 1..255 octets, the extended format for (0..MAX]: the request fails, nothing malformed is written
+    ok_script = [[5, 2, 1, 0, 5, 0, 0, 1, 1, 2, 3, 4, 0, 80]]
+    mk(1, [], [0x70, 0x31], 3, list(b"example.org"), 443, ok_script, "corpus:empty-user")
+    mk(1, [0x75, 0x31], [], 3, list(b"example.org"), 443, ok_script, "corpus:empty-password")
+    mk(1, [], [], 4, [1, 2, 3, 4], 443, ok_script, "corpus:empty-user-and-password")
+    mk(1, [], [0x70, 0x31], 4, [1, 2, 3, 4], 443, [[5, 0, 5, 0, 0, 1, 1, 2, 3, 4, 0, 80]], "corpus:empty-user-not-asked-for")
+    ext_script = [[5, 0x80, 1, 0, 5, 0, 0, 1, 1, 2, 3, 4, 0, 80]]
+    full = [(1, list(b"vpn.example")), (2, [10, 0, 0, 7]), (3, list(b"agent/1")), (4, list(b"dTE6cDE="))]
+    for k, name in ((0, "domain"), (2, "user-agent"), (3, "proxy-auth")):
+        mk(2, ext_encode([(t, [] if n == k else v) for n, (t, v) in enumerate(full)]), [], 4, [1, 2, 3, 4], 443, ext_script, "corpus:empty-ext-" + name)
+    mk(2, ext_encode(full[:2] + [(5, [])]), [], 4, [1, 2, 3, 4], 443, ext_script, "corpus:ext-sni")
     lens = [0, 1, 2, 254, 255, 256, 257, 300, 511, 512, 600]
     n = 1500 if thorough else 300
     for i in range(n):
@@ -141,6 +219,14 @@ def gen_cases(rng, ctx):
     e2e += [(0, 0, 0, 0, 0, 1, 1, 0), (0, 0, 2, 0, 0, 1, 0, 0), (0, 0, 0, 0, 5, 3, 0, 1)]
     # destinations keep their address type: IPv4, IPv6 and IPv4-mapped IPv6 literals
     e2e += [(ext, 1, 0x80 if ext else 2, 0, 0, 1, 0, 0, dk) for ext in (0, 1) for dk in (1, 2, 3)]
+    # plain-HTTP requests (absolute form): an IP literal without a port (80), with a port, with a userinfo part, names; the forwarded request is answered behind the tunnel
+    e2e += [(0, 1, 2, 0, 0, 1, 0, 0, dk, 1, 0) for dk in (0, 1, 2, 3)]
+    e2e += [(0, 1, 2, 0, 0, 1, 0, 0, dk, form, 0) for dk in (1, 2) for form in (2, 3)] + [(1, 1, 0x80, 0, 0, 1, 0, 0, 2, 1, 0)]
+    # Basic credentials with an empty half (no authenticator at the endpoint: the SOCKS5 server is to judge them): asked for them, the
+    # endpoint cannot say them in RFC 1929 and fails the request; not asked, or in the extended format (the token as it is), it goes on
+    e2e += [(0, 1, m, 0, 0, 1, 0, 0, 0, 0, cv) for cv in (1, 2) for m in (2, 0)] + [(1, 1, 0x80, 0, 0, 1, 0, 0, 0, 0, 1)]
+    # a User-Agent field with an empty value
+    e2e += [(ext, 1, 0x80 if ext else 2, 0, 0, 1, 0, 0, 0, form, 3) for ext, form in ((1, 0), (0, 0), (1, 1))]
     for cfg in e2e:
         l = line("c15_front", [list(cfg)])
         cases.append(Case(l, l, (lambda impl, ext=cfg[0], cr=cfg[1]: "c15_wellformed %d %s" % ((2 if ext else 1) if cr else 0, impl.split()[1] if len(impl.split()) > 1 else "-")),
@@ -218,41 +304,62 @@ def judge(case, impl, model, spec, ctx):
             ctx.setdefault("skipped_env", []).append(case.kind)
             return []
         ext, creds, method, st, code, atyp, tail_n, bw = case.meta["cfg"][:8]
-        dk = case.meta["cfg"][8] if len(case.meta["cfg"]) > 8 else 0
+        dk, form, cv = (list(case.meta["cfg"][8:]) + [0, 0, 0])[:3]
+        port = {0: 443, 1: 80, 2: 8080, 3: 8080}[form]
         want_req = {0: [5, 1, 0, 3, 11] + list(b"example.org"), 1: [5, 1, 0, 1, 203, 0, 113, 9],
-                    2: [5, 1, 0, 4, 0x20, 1, 0x0d, 0xb8] + [0] * 11 + [7], 3: [5, 1, 0, 4] + [0] * 10 + [255, 255, 203, 0, 113, 9]}[dk] + [1, 187]
+                    2: [5, 1, 0, 4, 0x20, 1, 0x0d, 0xb8] + [0] * 11 + [7], 3: [5, 1, 0, 4] + [0] * 10 + [255, 255, 203, 0, 113, 9]}[dk] + [port >> 8, port & 255]
+        host = {0: "example.org", 1: "203.0.113.9", 2: "[2001:db8::7]", 3: "[::ffff:203.0.113.9]"}[dk]
+        request = {0: "CONNECT %s:443" % host, 1: "GET http://%s/x" % host, 2: "GET http://%s:8080/x" % host, 3: "GET http://someone@%s:8080/x" % host}[form]
         t = impl.split()
         status, warn, intact = untok(t[0])
         seen = untok(t[1]) if len(t) > 1 else []
-        what = ("endpoint with a SOCKS5 upstream (%s authentication, client %s credentials); the server selects method 0x%02x, answers the "
+        what = ("endpoint with a SOCKS5 upstream (%s authentication, client %s); request %s; the server selects method 0x%02x, answers the "
                 "authentication with %d and the request with reply %d (bound address type %d, %d tunnel bytes right behind the reply, %s)"
-                % ("extended" if ext else "user/password", "with" if creds else "without", method, st, code, atyp, tail_n, "byte by byte" if bw else "at once"))
+                % ("extended" if ext else "user/password",
+                   ("with credentials " + {0: "u1:p1", 1: "':p1' (empty user name)", 2: "'u1:' (empty password)", 3: "u1:p1 and a User-Agent field with an empty value"}[cv]) if creds else "without credentials",
+                   request, method, st, code, atyp, tail_n, "byte by byte" if bw else "at once"))
         offered = {0, (0x80 if ext else 2)} if creds else {0}
+        # RFC 1929 has no way to say an empty user name or password
+        unsayable = bool(creds) and not ext and cv in (1, 2)
         # direct oracle (RFC 1928/1929 reading of the script)
         if method not in offered:
             want = (407, 0) if method in (2, 0x80, 0xFF) else (502, 300)
+        elif method != 0 and unsayable:
+            want = None                                                  # the request fails (with which code is the model's business)
         elif method != 0 and st != 0:
             want = (407, 0)
         elif code == 0:
             want = (200, 0)
         else:
             want = (502, {3: 301, 4: 301, 6: 302}.get(code, 300))
-        if spec is not None and spec.strip() != "1":
+        problem = wire_problem((2 if ext else 1) if creds else 0, seen)
+        if problem is not None:
+            out.append(("violation", "%s: the bytes the endpoint wrote to the SOCKS5 server are not well-formed: %s: %s" % (what, problem, seen[:60])))
+        elif spec is not None and spec.strip() != "1":
             out.append(("violation", "%s: the bytes the endpoint wrote to the SOCKS5 server are not a sequence of well-formed messages: %s" % (what, seen[:60])))
-        elif (status, warn) != want:
+        elif want is None and status == 200:
+            out.append(("violation", "%s: the client was answered 200 although the credentials cannot be said in RFC 1929" % what))
+        elif want is not None and (status, warn) != want:
             out.append(("violation", "%s: the client was answered %d (X-Warning %d), expected %d (%d)" % (what, status, warn, want[0], want[1])))
         elif status == 200 and not intact:
-            out.append(("violation", "%s: the tunnel does not start with the bytes that followed the reply, or does not echo" % what))
+            out.append(("violation", "%s: %s" % (what, "the body of the origin's response did not arrive" if form else "the tunnel does not start with the bytes that followed the reply, or does not echo")))
         elif status == 200 and seen[-len(want_req):] != want_req:
-            out.append(("violation", "%s: the request the SOCKS5 server received is %s, the destination of the client's CONNECT with its address type kept is %s"
-                        % (what, seen[-len(want_req):], want_req)))
+            out.append(("violation", "%s: the SOCKS5 server received %s, which does not end with the request for the client's destination with its address type and port kept: %s"
+                        % (what, seen[:80], want_req)))
         elif model is not None and impl != model:
             out.append(("disagree", "%s: %s vs model %s" % (what, impl[:80], model[:80])))
         return out
-    if case.kind in ("dialogue", "truncated", "corpus:long-user", "corpus:long-password"):
-        if spec is not None and spec.strip() != "1":
+    if case.kind in ("dialogue", "truncated") or case.kind.startswith("corpus:"):
+        t = impl.split()
+        client = untok(t[1]) if len(t) > 1 else []
+        problem = wire_problem(case.meta["ak"], client)
+        if problem is not None:
+            out.append(("violation", "the client wrote bytes to the SOCKS5 server that are not well-formed: %s: %s" % (problem, client[:60])))
+        elif spec is not None and spec.strip() != "1":
             out.append(("violation", "the client wrote bytes to the SOCKS5 server that are not a sequence of well-formed "
                                      "RFC 1928/1929 (or extended authentication) messages"))
+        elif case.kind.startswith("corpus:empty-") and case.kind != "corpus:empty-user-not-asked-for" and untok(t[0])[0] == 0:
+            out.append(("violation", "a tunnel was reported although the credentials the server asked for cannot be said in a well-formed message (%s)" % case.kind))
     if case.kind in ("dialogue", "truncated") and not out:
         # proceeds only when the server selects an offered method and reports success
         toks = case.impl.split()
